@@ -167,6 +167,9 @@ type World struct {
 	// OnInvoke is the body of every harness handler.
 	OnInvoke func(ti, fn, uid int, ctx context.Context, id int)
 	OnFilter func(ti, fn, id int, accepted bool)
+	// ShareOptions: see SubscribeUID
+	ShareOptions bool
+	sharedOpts   map[string]eventbus.SubscribeOption
 }
 
 func NewWorld(opts ...eventbus.Option) *World {
@@ -198,14 +201,29 @@ func (w *World) Subscribe(ti, fn int, o SubOpts) error { return w.SubscribeUID(t
 // SubscribeUID subscribes a closure of site fn that reports uid on every invocation.
 func (w *World) SubscribeUID(ti, fn, uid int, o SubOpts) error {
 	var opts []eventbus.SubscribeOption
+	// ShareOptions: one option VALUE per kind is created once and reused by every subscription of this
+	// world (`once := eventbus.Once()` kept in a variable, a shared []SubscribeOption), instead of a fresh
+	// value per call. Options are plain configuration: reusing one must not couple the subscriptions.
+	opt := func(kind string, mk func() eventbus.SubscribeOption) eventbus.SubscribeOption {
+		if !w.ShareOptions {
+			return mk()
+		}
+		if w.sharedOpts == nil {
+			w.sharedOpts = map[string]eventbus.SubscribeOption{}
+		}
+		if _, ok := w.sharedOpts[kind]; !ok {
+			w.sharedOpts[kind] = mk()
+		}
+		return w.sharedOpts[kind]
+	}
 	if o.Once {
-		opts = append(opts, eventbus.Once())
+		opts = append(opts, opt("once", eventbus.Once))
 	}
 	if o.Async {
-		opts = append(opts, eventbus.Async())
+		opts = append(opts, opt("async", eventbus.Async))
 	}
 	if o.Seq {
-		opts = append(opts, eventbus.Sequential())
+		opts = append(opts, opt("seq", eventbus.Sequential))
 	}
 	if o.Filter != 0 {
 		opts = append(opts, allTypes[ti].Filt(w, fn, o.Filter))
